@@ -380,6 +380,9 @@ func (fv *FnV) doInstr(st *State, ins ssa.Instruction) error {
 				if key == "mapstore" || (strings.HasPrefix(key, "mapstore:") && strings.Contains(site, strings.TrimPrefix(key, "mapstore:"))) {
 					cls = append(cls, list...)
 				}
+				if li := fv.innermostLoop(); li != nil && key == fmt.Sprintf("mapstore@loop%d", li.ordinal) {
+					cls = append(cls, list...)
+				}
 			}
 			for _, cl := range cls {
 				env := fv.contractEnv(st, fv.entry, nil)
